@@ -6,7 +6,8 @@ SINGLE_POOL = [127250, 127257, 127251, 130306, 130312, 130314, 127245, 128259, 1
 FAST_POOL = [129029, 126996, 126998, 129540, 130816, 126720, 127489, 129038, 129039, 129794, 129809, 129810,
              128275, 130820, 127506, 129284, 129285, 130577]
 UNKNOWN_POOL = [65000, 130999, 127000, 59136, 124672]      # canonical PGN numbers the database does not define
-MFG_CODES = [137, 275, 1855, 135, 229, 1851, 358, 381]      # Maretron, Navico, Furuno, Airmar, Garmin, Raymarine, Victron, B&G
+MFG_CODES = [137, 275, 1855, 135, 229, 1851, 358, 381,      # Maretron, Navico, Furuno, Airmar, Garmin, Raymarine, Victron, B & G
+             1085, 431, 78, 161, 341, 427, 1239, 644]         # names with commas, slashes, brackets, ampersands, dots, dashes
 
 
 def rbytes(rng, n):
@@ -126,7 +127,7 @@ def wire_packet(rng, kind, item):
     if item["k"] == "junk":
         if kind == "ebyte":
             b = bytearray(rbytes(rng, 13))
-            b[0] = (b[0] & 0xF0) | rng.randrange(0, 9)
+            b[0] = (b[0] & 0xF0) | (rng.randrange(0, 9) if rng.random() < 0.6 else rng.randrange(9, 16))     # also lengths no CAN frame has
             if bytes(b) == b"Sorry,Limited":
                 b[1] ^= 1
             return bytes(b)
